@@ -300,7 +300,8 @@ class ASTTypeBuilder:
         return InputObjectType(
             name=type_def.name.value,
             description=_desc(type_def),
-            fields=[
+            # has to be lazy to support cyclic definition
+            fields=lambda: [
                 self._build_input_field(field_node)
                 for field_node in type_def.fields
             ],
@@ -474,33 +475,37 @@ class ASTTypeBuilder:
             name, _ast.InputObjectTypeExtension
         )
 
-        field_names = set(f.name for f in input_object_type.fields)
-        fields = [
-            InputField(
-                f.name,
-                self.extend_type(f.type),
-                default_value=f._default_value,
-                description=f.description,
-                node=f.node,
-            )
-            for f in input_object_type.fields
-        ]
+        # has to be lazy to support cyclic definition
+        def _fields() -> List[InputField]:
+            field_names = set(f.name for f in input_object_type.fields)
+            fields = [
+                InputField(
+                    f.name,
+                    self.extend_type(f.type),
+                    default_value=f._default_value,
+                    description=f.description,
+                    node=f.node,
+                )
+                for f in input_object_type.fields
+            ]
 
-        for extension_node in extensions:
-            for ext_field in extension_node.fields:
-                if ext_field.name.value in field_names:
-                    raise ExtensionError(
-                        'Found duplicate field "%s" when extending input object "%s"'
-                        % (ext_field.name.value, name),
-                        [ext_field],
-                    )
-                field_names.add(ext_field.name.value)
-                fields.append(self._build_input_field(ext_field))
+            for extension_node in extensions:
+                for ext_field in extension_node.fields:
+                    if ext_field.name.value in field_names:
+                        raise ExtensionError(
+                            'Found duplicate field "%s" when extending input object "%s"'
+                            % (ext_field.name.value, name),
+                            [ext_field],
+                        )
+                    field_names.add(ext_field.name.value)
+                    fields.append(self._build_input_field(ext_field))
+
+            return fields
 
         return InputObjectType(
             name,
             description=input_object_type.description,
-            fields=fields,
+            fields=_fields,
             nodes=input_object_type.nodes + extensions,  # type: ignore
         )
 
